@@ -322,7 +322,7 @@ func init() {
 func TestC11(t *testing.T) {
 	rig.Main(t, "C11", "complete enumeration of all 2^24 bus addresses on an emulator.System whose ROM/WRAM/SRAM arrays hold seed-defined contents: "+
 		"inside the console's documented layout a read must return, and a write must change, exactly the array cell lorom.BusAddressToPak designates; "+
-		"outside it a write that changes any array cell must hit the mapper's cell, and a write the emulator accepts at an address to which the mapper assigns a memory class must be stored in that cell; all three arrays are compared with golden copies after every bank. "+
+		"outside it a write that changes any array cell must hit the mapper's cell, and a write the emulator accepts at an address to which the mapper assigns a memory class must be stored in that cell; all three arrays are compared with golden copies after every bank; afterwards the System that was copied is read again through its own bus, and each System's CPU.Bus is compared with the System's bus. "+
 		"Distinct = (content seed, address); non-trivial = the address is ROM, SRAM or WRAM for the console or the bus accepted a write there.",
 		func(r *rig.Run) {
 			ev := r.Ev
